@@ -326,9 +326,32 @@ func arenas() []*arena {
 		}
 		return [][]byte{h}
 	}
-	for _, pad := range []int{10, 5000} {
+	// pads: a small and a large section, and sections of exactly 4095, 4096 and 4097 bytes
+	// (negative entries: the padding is calibrated on first use so that the serialised
+	// section has that length — the boundary between "copied" and "kept by reference")
+	noop := func(reflect.Value) {}
+	exact := func(pad int, section int, run func(pad int, ops func(reflect.Value)) [][]byte) int {
+		if pad >= 0 {
+			return pad
+		}
+		out := run(100, noop)
+		if len(out) <= section {
+			return 100
+		}
+		return 100 + (-pad) - len(out[section])
+	}
+	padName := func(pad int) string {
+		if pad < 0 {
+			return fmt.Sprintf("=%d", -pad)
+		}
+		return fmt.Sprintf(">%d", pad)
+	}
+	pads := []int{10, 5000, -4095, -4096, -4097}
+	for _, pad := range pads {
 		pad := pad
-		as = append(as, &arena{name: fmt.Sprintf("Response.Header(late, chunked writer, head>%d)", pad), typ: reflect.TypeOf(&protocol.ResponseHeader{}), run: func(ops func(reflect.Value)) [][]byte {
+		var runCW func(pad int, ops func(reflect.Value)) [][]byte
+		runCW = func(pad int, ops func(reflect.Value)) [][]byte {
+			pad = exact(pad, 0, runCW)
 			var rs protocol.Response
 			rs.Header.SetServerBytes(bytes.Repeat([]byte("s"), pad))
 			sc := sconn.New(nil, sconn.EOF)
@@ -344,8 +367,11 @@ func arenas() []*arena {
 			}
 			cw.Flush()
 			return lateHead(sc.Output())
-		}})
-		as = append(as, &arena{name: fmt.Sprintf("Response.Header(late, body stream Read, head>%d)", pad), typ: reflect.TypeOf(&protocol.ResponseHeader{}), run: func(ops func(reflect.Value)) [][]byte {
+		}
+		as = append(as, &arena{name: fmt.Sprintf("Response.Header(late, chunked writer, head%s)", padName(pad)), typ: reflect.TypeOf(&protocol.ResponseHeader{}), run: func(ops func(reflect.Value)) [][]byte { return runCW(pad, ops) }})
+		var runBS func(pad int, ops func(reflect.Value)) [][]byte
+		runBS = func(pad int, ops func(reflect.Value)) [][]byte {
+			pad = exact(pad, 0, runBS)
 			var rs protocol.Response
 			rs.Header.SetServerBytes(bytes.Repeat([]byte("s"), pad))
 			done := false
@@ -364,13 +390,16 @@ func arenas() []*arena {
 			}
 			w.Flush()
 			return lateHead(sc.Output())
-		}})
+		}
+		as = append(as, &arena{name: fmt.Sprintf("Response.Header(late, body stream Read, head%s)", padName(pad)), typ: reflect.TypeOf(&protocol.ResponseHeader{}), run: func(ops func(reflect.Value)) [][]byte { return runBS(pad, ops) }})
 	}
 	// late trailer calls: the trailer section goes to the connection after the last chunk,
 	// then the body stream is closed (application code) and only then the flush follows
-	for _, pad := range []int{10, 5000} {
+	for _, pad := range pads {
 		pad := pad
-		as = append(as, &arena{name: fmt.Sprintf("ResponseTrailer(late, body stream Close, trailer>%d)", pad), typ: reflect.TypeOf(&protocol.Trailer{}), run: func(ops func(reflect.Value)) [][]byte {
+		var runTR func(pad int, ops func(reflect.Value)) [][]byte
+		runTR = func(pad int, ops func(reflect.Value)) [][]byte {
+			pad = exact(pad, 1, runTR)
 			var rs protocol.Response
 			rs.Header.Trailer().Set("X-Pad", strings.Repeat("t", pad))
 			rs.SetBodyStream(&closingReader{Reader: strings.NewReader("streamed"), onClose: func() { ops(reflect.ValueOf(rs.Header.Trailer())) }}, -1)
@@ -386,11 +415,14 @@ func arenas() []*arena {
 				return [][]byte{headOf(out), []byte("X-Inj-No-Last-Chunk: 1\r\n\r\n")}
 			}
 			return [][]byte{headOf(out), out[i+5:]}
-		}})
+		}
+		as = append(as, &arena{name: fmt.Sprintf("ResponseTrailer(late, body stream Close, trailer%s)", padName(pad)), typ: reflect.TypeOf(&protocol.Trailer{}), run: func(ops func(reflect.Value)) [][]byte { return runTR(pad, ops) }})
 	}
-	for _, pad := range []int{10, 5000} {
+	for _, pad := range pads {
 		pad := pad
-		as = append(as, &arena{name: fmt.Sprintf("Request.Header(late, body stream Read, head>%d)", pad), typ: reflect.TypeOf(&protocol.RequestHeader{}), run: func(ops func(reflect.Value)) [][]byte {
+		var runRQ func(pad int, ops func(reflect.Value)) [][]byte
+		runRQ = func(pad int, ops func(reflect.Value)) [][]byte {
+			pad = exact(pad, 0, runRQ)
 			var rq protocol.Request
 			rq.SetRequestURI("http://h/p")
 			rq.Header.SetMethod("POST")
@@ -415,7 +447,8 @@ func arenas() []*arena {
 				return [][]byte{[]byte(fmt.Sprintf("POST /p HTTP/1.1\r\nX-Inj-Start-Line-Overwritten: %q\r\n\r\n", trunc(string(h), 60)))}
 			}
 			return [][]byte{h}
-		}})
+		}
+		as = append(as, &arena{name: fmt.Sprintf("Request.Header(late, body stream Read, head%s)", padName(pad)), typ: reflect.TypeOf(&protocol.RequestHeader{}), run: func(ops func(reflect.Value)) [][]byte { return runRQ(pad, ops) }})
 	}
 	for _, a := range as {
 		a.ents = entries(a.typ, a.helper)
